@@ -297,7 +297,7 @@ PROPS["C02"] = {
     "bounds": {"operations": 1, "writes_per_event": 2, "writev_segments": "1..2 (+1025 concrete)", "sizes": "<= 2^31"},
     "outside": ["real kernel behaviour beyond the stub contract", "multi-goroutine issue order (C03)"],
     "assumptions": ["ghost kernel contract", "pool contracts (C12)"],
-    "units": [dict(_LOOP_COMMON, name="loop-outbound", files=["harness/gnet/vloop_world.go", "harness/gnet/c14_pick.go", "harness/gnet/c02_outbound.go"], cfg={"vcfg": {"writes": 2, "nodes": 1, "segs": 2, "any_shape": 0}}, cfg_thorough={"vcfg": {"writes": 3, "nodes": 2, "segs": 3, "any_shape": 1}})],
+    "units": [dict(_LOOP_COMMON, name="loop-outbound", files=["harness/gnet/vloop_world.go", "harness/gnet/c14_pick.go", "harness/gnet/c02_outbound.go", "harness/gnet/c02_reactor.go"], cfg={"vcfg": {"writes": 2, "nodes": 1, "segs": 2, "any_shape": 0}}, cfg_thorough={"vcfg": {"writes": 3, "nodes": 2, "segs": 3, "any_shape": 1}})],
 }
 
 PROPS["C18"] = {
